@@ -1,4 +1,5 @@
 from . import numeric
 def run(tier, seed):
     return numeric.run("C07", tier, seed, lambda e, i: True,
-        "Generator(i) for every i in -2..DoF+2, hat/Vee/Bracket/inner/weightedNorm/InnerWeights on integer (exact) and real tangents; distinct = (event, group, scalar, stratum)")
+        "Generator(i) for every i in -2..DoF+2, hat/Vee/Bracket/inner/weightedNorm/InnerWeights on integer (exact) and real tangents; in addition (beyond the property) the vector-space operators of tangents, Jacobian*Tangent, pi2pi/toRad/toDeg and Random(); distinct = (event, group, scalar, stratum)",
+        module="AlgoTrace")
